@@ -80,6 +80,18 @@ def to_int(x, scale):
     return r
 
 
+def to_int_tol(x, scale, tol=1e-6):
+    """scale * x as an integer when x is within `tol` (the tolerance property C04 allows) of a grid point; for penalties
+    that are not exactly representable in binary, where float sums drift by a few ulps"""
+    v = float(x) * scale
+    if v != v or v in (float("inf"), float("-inf")):
+        return ["nonfinite", str(x)]
+    r = int(round(v))
+    if abs(v - r) > tol * scale:
+        return ["offgrid", repr(float(x))]
+    return r
+
+
 # ----------------------------------------------------------------------------------------------
 # element coding and dataset construction
 # ----------------------------------------------------------------------------------------------
